@@ -30,12 +30,15 @@
 (*                                                                         *)
 (* Named deviations (the model follows the code, not the ideal): F1 combine *)
 (* counts a member Error as an end; F2 share fans out over a snapshot; F3   *)
-(* combine broadcasts to ended members; F7 merge's Pull broadcast does not  *)
-(* re-check `ended`; F8 share greets a sink before a late upstream greeted. *)
+(* combine broadcasts to ended members; F8 share greets a sink before a     *)
+(* late upstream greeted.                                                   *)
 (* Repaired in the code and therefore in the model: F4 (merge disposes a    *)
 (* late greeter), F5 (combine stores before counting), F6 (take claims its  *)
-(* slot atomically), F9 (take is over when its source ends by itself), F10 (concat!() of no member greets before it completes).  file:line references are to the pinned commit; lines  *)
-(* of merge.rs / take.rs / combine.rs moved by up to 12 with those commits. *)
+(* slot atomically), F7 (merge's Pull broadcast re-checks `ended`), F9      *)
+(* (take is over when its source ends by itself), F10 (concat!() of no      *)
+(* member greets before it completes).  file:line references are to the     *)
+(* pinned commit; lines of merge.rs / take.rs / combine.rs / concat.rs      *)
+(* moved by up to 25 with those commits.                                    *)
 (***************************************************************************)
 EXTENDS Integers, Sequences, FiniteSets, TLC
 
@@ -841,7 +844,15 @@ MG8a:
 MG8:
       while (jx <= Len(Ups(to.n))) {
         if (S(to).tbs[jx] # NoRef) {
-          if (m.t \in {"H", "D"}) { Panic(); } else {
+          if (m.t \in {"H", "D"}) { Panic(); }
+          else if (m.t = "P") {
+            \* fix F7: the output may have ended while an earlier member was being pulled
+            snap := <<S(to).tbs[jx]>>;
+mg_pl_ended_ld:
+            if (S(to).ended) { goto Ret; } else {
+              call Deliver("S", snap[1], m);
+            };
+          } else {
             call Deliver("S", S(to).tbs[jx], m);
           };
         };
@@ -3401,7 +3412,7 @@ DDisp(self) == /\ pc[self] = "DDisp"
                                                                                                                                                                                                                                      sx, 
                                                                                                                                                                                                                                      ch >>
                                                                                                                                                                                                      ELSE /\ Assert(FALSE, 
-                                                                                                                                                                                                                    "Failure of assertion at line 1236, column 5.")
+                                                                                                                                                                                                                    "Failure of assertion at line 1244, column 5.")
                                                                                                                                                                                                           /\ pc' = [pc EXCEPT ![self] = "Ret"]
                                                                                                                                                                                                           /\ UNCHANGED << st, 
                                                                                                                                                                                                                           tasks, 
@@ -4737,28 +4748,39 @@ MG8(self) == /\ pc[self] = "MG8"
                                               /\ UNCHANGED << stack, fr, to, m, 
                                                               lg, sx, jx, ch, 
                                                               lv, snap >>
-                                         ELSE /\ /\ fr' = [fr EXCEPT ![self] = "S"]
-                                                 /\ m' = [m EXCEPT ![self] = m[self]]
-                                                 /\ stack' = [stack EXCEPT ![self] = << [ procedure |->  "Deliver",
-                                                                                          pc        |->  "MG9",
-                                                                                          lg        |->  lg[self],
-                                                                                          sx        |->  sx[self],
-                                                                                          jx        |->  jx[self],
-                                                                                          ch        |->  ch[self],
-                                                                                          lv        |->  lv[self],
-                                                                                          snap      |->  snap[self],
-                                                                                          fr        |->  fr[self],
-                                                                                          to        |->  to[self],
-                                                                                          m         |->  m[self] ] >>
-                                                                                      \o stack[self]]
-                                                 /\ to' = [to EXCEPT ![self] = S(to[self]).tbs[jx[self]]]
-                                              /\ lg' = [lg EXCEPT ![self] = FALSE]
-                                              /\ sx' = [sx EXCEPT ![self] = 0]
-                                              /\ jx' = [jx EXCEPT ![self] = 0]
-                                              /\ ch' = [ch EXCEPT ![self] = ""]
-                                              /\ lv' = [lv EXCEPT ![self] = 0]
-                                              /\ snap' = [snap EXCEPT ![self] = <<>>]
-                                              /\ pc' = [pc EXCEPT ![self] = "DStart"]
+                                         ELSE /\ IF m[self].t = "P"
+                                                    THEN /\ snap' = [snap EXCEPT ![self] = <<S(to[self]).tbs[jx[self]]>>]
+                                                         /\ pc' = [pc EXCEPT ![self] = "mg_pl_ended_ld"]
+                                                         /\ UNCHANGED << stack, 
+                                                                         fr, 
+                                                                         to, m, 
+                                                                         lg, 
+                                                                         sx, 
+                                                                         jx, 
+                                                                         ch, 
+                                                                         lv >>
+                                                    ELSE /\ /\ fr' = [fr EXCEPT ![self] = "S"]
+                                                            /\ m' = [m EXCEPT ![self] = m[self]]
+                                                            /\ stack' = [stack EXCEPT ![self] = << [ procedure |->  "Deliver",
+                                                                                                     pc        |->  "MG9",
+                                                                                                     lg        |->  lg[self],
+                                                                                                     sx        |->  sx[self],
+                                                                                                     jx        |->  jx[self],
+                                                                                                     ch        |->  ch[self],
+                                                                                                     lv        |->  lv[self],
+                                                                                                     snap      |->  snap[self],
+                                                                                                     fr        |->  fr[self],
+                                                                                                     to        |->  to[self],
+                                                                                                     m         |->  m[self] ] >>
+                                                                                                 \o stack[self]]
+                                                            /\ to' = [to EXCEPT ![self] = S(to[self]).tbs[jx[self]]]
+                                                         /\ lg' = [lg EXCEPT ![self] = FALSE]
+                                                         /\ sx' = [sx EXCEPT ![self] = 0]
+                                                         /\ jx' = [jx EXCEPT ![self] = 0]
+                                                         /\ ch' = [ch EXCEPT ![self] = ""]
+                                                         /\ lv' = [lv EXCEPT ![self] = 0]
+                                                         /\ snap' = [snap EXCEPT ![self] = <<>>]
+                                                         /\ pc' = [pc EXCEPT ![self] = "DStart"]
                                               /\ UNCHANGED << obs, panicked >>
                               ELSE /\ pc' = [pc EXCEPT ![self] = "MG9"]
                                    /\ UNCHANGED << obs, panicked, stack, fr, 
@@ -4778,6 +4800,38 @@ MG9(self) == /\ pc[self] = "MG9"
                              ntop, panicked, started, mon, done, stack, fr, to, 
                              m, lg, sx, ch, lv, snap, ka, ca, gx, ex, nx, fx, 
                              bx, bc, tx, ta, tc, ft, act, sj, tk >>
+
+mg_pl_ended_ld(self) == /\ pc[self] = "mg_pl_ended_ld"
+                        /\ IF S(to[self]).ended
+                              THEN /\ pc' = [pc EXCEPT ![self] = "Ret"]
+                                   /\ UNCHANGED << stack, fr, to, m, lg, sx, 
+                                                   jx, ch, lv, snap >>
+                              ELSE /\ /\ fr' = [fr EXCEPT ![self] = "S"]
+                                      /\ m' = [m EXCEPT ![self] = m[self]]
+                                      /\ stack' = [stack EXCEPT ![self] = << [ procedure |->  "Deliver",
+                                                                               pc        |->  "MG9",
+                                                                               lg        |->  lg[self],
+                                                                               sx        |->  sx[self],
+                                                                               jx        |->  jx[self],
+                                                                               ch        |->  ch[self],
+                                                                               lv        |->  lv[self],
+                                                                               snap      |->  snap[self],
+                                                                               fr        |->  fr[self],
+                                                                               to        |->  to[self],
+                                                                               m         |->  m[self] ] >>
+                                                                           \o stack[self]]
+                                      /\ to' = [to EXCEPT ![self] = snap[self][1]]
+                                   /\ lg' = [lg EXCEPT ![self] = FALSE]
+                                   /\ sx' = [sx EXCEPT ![self] = 0]
+                                   /\ jx' = [jx EXCEPT ![self] = 0]
+                                   /\ ch' = [ch EXCEPT ![self] = ""]
+                                   /\ lv' = [lv EXCEPT ![self] = 0]
+                                   /\ snap' = [snap EXCEPT ![self] = <<>>]
+                                   /\ pc' = [pc EXCEPT ![self] = "DStart"]
+                        /\ UNCHANGED << ci, st, nd, sk, pi, fi, tasks, now, 
+                                        obs, script, ntop, panicked, started, 
+                                        mon, done, ka, ca, gx, ex, nx, fx, bx, 
+                                        bc, tx, ta, tc, ft, act, sj, tk >>
 
 mg_late_ld(self) == /\ pc[self] = "mg_late_ld"
                     /\ IF S(to[self]).ended
@@ -6284,17 +6338,18 @@ Deliver(self) == DStart(self) \/ DDisp(self) \/ K1(self) \/ K1a(self)
                     \/ SK2(self) \/ SK3(self) \/ SK4(self) \/ SK6(self)
                     \/ SK5(self) \/ SK7(self) \/ SK8(self) \/ MG1(self)
                     \/ MG2(self) \/ MG8a(self) \/ MG8(self) \/ MG9(self)
-                    \/ mg_late_ld(self) \/ mg_late_ret(self)
-                    \/ mg_tb_st(self) \/ mg_start_fa(self)
-                    \/ mg_greet(self) \/ MG3(self) \/ mg_data(self)
-                    \/ MG4(self) \/ mg_ended_st(self) \/ mg_sib_ld(self)
-                    \/ MG5(self) \/ mg_sib_term(self) \/ mg_err(self)
-                    \/ MG6(self) \/ mg_tb_clr(self) \/ mg_end_fa(self)
-                    \/ mg_term(self) \/ MG7(self) \/ mg_tk_ended_st(self)
-                    \/ CCNext(self) \/ CC7(self) \/ CC0(self) \/ CC0b(self)
-                    \/ CC0c(self) \/ CC1(self) \/ CC2(self) \/ CC3(self)
-                    \/ CC4(self) \/ CC5(self) \/ CC6(self) \/ CB1(self)
-                    \/ CB2(self) \/ cb_tb_st(self) \/ cb_start_fs(self)
+                    \/ mg_pl_ended_ld(self) \/ mg_late_ld(self)
+                    \/ mg_late_ret(self) \/ mg_tb_st(self)
+                    \/ mg_start_fa(self) \/ mg_greet(self) \/ MG3(self)
+                    \/ mg_data(self) \/ MG4(self) \/ mg_ended_st(self)
+                    \/ mg_sib_ld(self) \/ MG5(self) \/ mg_sib_term(self)
+                    \/ mg_err(self) \/ MG6(self) \/ mg_tb_clr(self)
+                    \/ mg_end_fa(self) \/ mg_term(self) \/ MG7(self)
+                    \/ mg_tk_ended_st(self) \/ CCNext(self) \/ CC7(self)
+                    \/ CC0(self) \/ CC0b(self) \/ CC0c(self) \/ CC1(self)
+                    \/ CC2(self) \/ CC3(self) \/ CC4(self) \/ CC5(self)
+                    \/ CC6(self) \/ CB1(self) \/ CB2(self)
+                    \/ cb_tb_st(self) \/ cb_start_fs(self)
                     \/ cb_greet(self) \/ CB3(self) \/ cb_vals_ld(self)
                     \/ cb_rcu_ld(self) \/ cb_rcu_cas(self)
                     \/ cb_ndata(self) \/ cb_ndata_fs(self)
@@ -7258,7 +7313,7 @@ Finished == done \/ panicked
 AccessLabels == {"th_start", "K1",
                  "mg_late_ld", "mg_tb_st", "mg_start_fa", "cb_tb_st", "cb_start_fs",
                  "tk_taken_fu", "tk_end_ld", "tk_end_st", "tk_up_ld", "tk_src_end_st",
-                 "mg_tb_clr", "mg_end_fa", "mg_ended_st", "mg_sib_ld", "mg_tk_ended_st", "MG8",
+                 "mg_tb_clr", "mg_end_fa", "mg_ended_st", "mg_sib_ld", "mg_tk_ended_st", "MG8", "mg_pl_ended_ld",
                  "cb_vals_ld", "cb_rcu_ld", "cb_rcu_cas", "cb_ndata_fs", "cb_ndata_ld", "cb_emit_ld",
                  "cb_end_fs", "cb_sib_ld"}
 \* the step thread t is about to take is a shared-state access (the exit test of a loop is not)
